@@ -5,4 +5,786 @@ import PjVerif.Lemmas.SchedPass
 import PjVerif.Spec.Sched2
 namespace Pj
 
+/-! ### folds of `minT` / `maxT` -/
+
+theorem minT_le_left (a b : Time) : minT a b ≤ a := by unfold minT; split <;> grind
+theorem minT_le_right (a b : Time) : minT a b ≤ b := by unfold minT; split <;> grind
+theorem le_minT {x a b : Time} (h1 : x ≤ a) (h2 : x ≤ b) : x ≤ minT a b := by unfold minT; split <;> assumption
+theorem maxT_le {x a b : Time} (h1 : a ≤ x) (h2 : b ≤ x) : maxT a b ≤ x := by unfold maxT; split <;> assumption
+
+theorem foldl_minT_le_init : ∀ (l : List Time) (b : Time), l.foldl minT b ≤ b
+  | [], _ => by simp
+  | y :: l, b => by
+    simp only [List.foldl_cons]
+    have h1 := foldl_minT_le_init l (minT b y)
+    have h2 := minT_le_left b y
+    grind
+
+theorem foldl_minT_le_mem : ∀ (l : List Time) (b y : Time), y ∈ l → l.foldl minT b ≤ y
+  | [], _, _, h => by cases h
+  | z :: l, b, y, h => by
+    simp only [List.foldl_cons]
+    rcases List.mem_cons.1 h with rfl | h
+    · have h1 := foldl_minT_le_init l (minT b y)
+      have h2 := minT_le_right b y
+      grind
+    · exact foldl_minT_le_mem l _ y h
+
+theorem le_foldl_minT : ∀ (l : List Time) (b x : Time), x ≤ b → (∀ y ∈ l, x ≤ y) → x ≤ l.foldl minT b
+  | [], _, _, h, _ => by simpa using h
+  | z :: l, b, x, h, hl => by
+    simp only [List.foldl_cons]
+    exact le_foldl_minT l _ x (le_minT h (hl z (by simp))) (fun y hy => hl y (List.mem_cons_of_mem _ hy))
+
+theorem foldl_maxT_le : ∀ (l : List Time) (b x : Time), b ≤ x → (∀ y ∈ l, y ≤ x) → l.foldl maxT b ≤ x
+  | [], _, _, h, _ => by simpa using h
+  | z :: l, b, x, h, hl => by
+    simp only [List.foldl_cons]
+    exact foldl_maxT_le l _ x (maxT_le h (hl z (by simp))) (fun y hy => hl y (List.mem_cons_of_mem _ hy))
+
+theorem minStarts_le (σ : SS) (l : List Uid) (m : Time) : minStarts σ l m ≤ m :=
+  foldl_minT_le_init _ _
+
+theorem minStarts_le_start (σ : SS) (l : List Uid) (m : Time) (s : Uid) (st : Time) (hs : s ∈ l)
+    (h : (σ.f s).start = some st) : minStarts σ l m ≤ st :=
+  foldl_minT_le_mem _ _ _ (List.mem_filterMap.2 ⟨s, hs, h⟩)
+
+theorem minStarts_congr (σ σ' : SS) (l : List Uid) (m : Time) (h : ∀ s ∈ l, σ'.f s = σ.f s) :
+    minStarts σ' l m = minStarts σ l m := by
+  unfold minStarts
+  congr 1
+  induction l with
+  | nil => rfl
+  | cons a l ih =>
+    simp only [List.filterMap_cons, h a (by simp)]
+    rw [ih (fun s hs => h s (List.mem_cons_of_mem _ hs))]
+
+/-! ### days -/
+
+theorem dayOf_le (t : Time) : ((dayOf t : Int) : Rat) ≤ t := Rat.floor_le t
+
+theorem dayOf_mono {a b : Time} (h : a ≤ b) : dayOf a ≤ dayOf b := by
+  unfold dayOf
+  exact Rat.le_floor_iff.2 (Rat.le_trans (Rat.floor_le a) h)
+
+theorem int_succ_le_cast {a b : Int} (h : a < b) : (a : Rat) + 1 ≤ (b : Rat) := by
+  have : ((a + 1 : Int) : Rat) ≤ (b : Rat) := Rat.intCast_le_intCast.2 (by omega)
+  rw [Rat.intCast_add] at this
+  exact this
+
+theorem mem_daysBetween (a b d : Int) : d ∈ daysBetween a b ↔ a ≤ d ∧ d < b := by
+  unfold daysBetween
+  simp only [List.mem_map, List.mem_range]
+  constructor
+  · rintro ⟨i, hi, rfl⟩
+    omega
+  · intro h
+    exact ⟨(d - a).toNat, by omega, by omega⟩
+
+/-- the day `c09Encode` recovers from a computed end `d + 1 − x`, `0 ≤ x < 1` -/
+theorem endDay_spec (d : Int) (x : Rat) (h0 : 0 ≤ x) (h1 : x < 1) :
+    (if ((d : Rat) + 1 - x) == ((dayOf ((d : Rat) + 1 - x) : Int) : Rat) then dayOf ((d : Rat) + 1 - x) - 1
+      else dayOf ((d : Rat) + 1 - x)) = d := by
+  by_cases hx : x = 0
+  · subst hx
+    have he : (d : Rat) + 1 - 0 = ((d + 1 : Int) : Rat) := by rw [Rat.intCast_add]; grind
+    rw [he, dayOf_intCast]
+    simp
+  · have he : (d : Rat) + 1 - x = (d : Rat) + (1 - x) := by grind
+    have hd : dayOf ((d : Rat) + 1 - x) = d := by
+      rw [he]; exact dayOf_add_frac d _ (by grind) (by grind)
+    rw [hd]
+    have hne : ¬ ((d : Rat) + 1 - x = (d : Rat)) := by grind
+    simp [hne]
+
+/-! ### the backward pass with its dates: every placement knows where its `minDate`/`minSucc` came from -/
+
+theorem passList_done_if (P : Uid → Prop) (step : SS → Uid → Res SS) :
+    ∀ (xs : List Uid), (∀ σ x σ', x ∈ xs → step σ x = .ok σ' → Ext σ σ' ∧ (P x → x ∈ σ'.done)) →
+      ∀ (σ σ' : SS), passList step σ xs = .ok σ' → ∀ x ∈ xs, P x → x ∈ σ'.done := by
+  intro xs
+  induction xs with
+  | nil => intro _ σ σ' _ x hx; cases hx
+  | cons y xs ih =>
+    intro hstep σ σ' h x hx hp
+    simp only [passList, bind, Except.bind] at h
+    split at h
+    · cases h
+    · rename_i σ1 h1
+      have hrest := fun σ z σ' (hz : z ∈ xs) => hstep σ z σ' (List.mem_cons_of_mem _ hz)
+      rcases List.mem_cons.1 hx with rfl | hx
+      · have he : Ext σ1 σ' := passList_rel Ext Ext.refl (fun _ _ _ => Ext.trans) step xs
+          (fun σ z σ' hz hh => (hrest σ z σ' hz hh).1) σ1 σ' h
+        exact he.done_sub ((hstep σ x σ1 List.mem_cons_self h1).2 hp)
+      · exact ih hrest σ1 σ' h x hx hp
+
+/-- induction over a backward pass that keeps track of the dates handed down: `R t m` relates a task to the
+    `minDate` it is called with; the placement learns that its `minSucc` is `minStarts` over the successors in a
+    state `σ1` that the placement state extends and in which the same-side successors are done -/
+theorem bwdPass_inv2 (env : Env) (I : SS → Prop) (R : Uid → Time → Prop)
+    (hplace : ∀ σ1 σ σ' t m, R t m → I σ → t ∉ σ.done → Ext σ1 σ →
+      (∀ s ∈ (env.info t).succs, (env.info s).member = (env.info t).member → s ∈ σ1.done) →
+      (∀ c ∈ (env.info t).children, c ∈ σ.done) →
+      bwdPlace env σ t m (minStarts σ1 (env.info t).succs m) = .ok σ' → I σ')
+    (hkids : ∀ σ1 t c m, R t m → c ∈ (env.info t).children → R c (minStarts σ1 (env.info t).succs m))
+    (hlinks : ∀ t p m, R t m → p ∈ (env.info t).succs → (env.info p).member = (env.info t).member → R p m) :
+    ∀ (fuel : Nat) (stk : List Uid) (σ : SS) (t : Uid) (m : Time) (σ' : SS),
+      R t m → I σ → bwdPass env fuel stk σ t m = .ok σ' → I σ' := by
+  intro fuel
+  induction fuel with
+  | zero => intro stk σ t m σ' _ _ h; cases h
+  | succ fuel ih =>
+    intro stk σ t m σ' hq hi h
+    rw [bwdPass_eq_gPass] at h
+    rcases gPass_succ_cases env _ _ _ _ fuel stk σ t m σ' h with ⟨hd, rfl⟩ | ⟨hd, hs, σ1, σ2, h1, h2, h3⟩
+    · exact hi
+    · simp only [← bwdPass_eq_gPass] at h1 h2
+      have e1 : ExtS (t :: stk) σ σ1 := passList_extS _ _ _ (fun a x b _ hh => by
+        split at hh
+        · exact (bwdPass_extS env _ _ _ _ _ _ hh).1
+        · cases hh; exact ExtS.refl _ _) _ _ h1
+      have e2 : ExtS (t :: stk) σ1 σ2 := passList_extS _ _ _ (fun a x b _ hh =>
+        (bwdPass_extS env _ _ _ _ _ _ hh).1) _ _ h2
+      have ht2 : t ∉ σ2.done := (e1.trans e2).2 t List.mem_cons_self hd
+      have i1 : I σ1 := passList_inv I _ _ (fun a x b hxl ha hh => by
+        split at hh
+        · rename_i hm
+          exact ih _ _ _ _ _ (hlinks t x m hq hxl (by simpa using hm)) ha hh
+        · cases hh; exact ha) _ _ hi h1
+      have i2 : I σ2 := passList_inv I _ _ (fun a x b hxl ha hh =>
+        ih _ _ _ _ _ (hkids σ1 t x m hq (List.mem_reverse.1 hxl)) ha hh) _ _ i1 h2
+      have hk : ∀ c ∈ (env.info t).children, c ∈ σ2.done := fun c hc =>
+        passList_all_done _ _ (fun a x b _ hh =>
+          ⟨(bwdPass_extS env _ _ _ _ _ _ hh).1.1, (bwdPass_extS env _ _ _ _ _ _ hh).2⟩) _ _ h2 c (List.mem_reverse.2 hc)
+      have hsd : ∀ s ∈ (env.info t).succs, (env.info s).member = (env.info t).member → s ∈ σ1.done :=
+        passList_done_if (fun s => (env.info s).member = (env.info t).member) _ _ (fun a x b _ hh => by
+          split at hh
+          · exact ⟨(bwdPass_extS env _ _ _ _ _ _ hh).1.1, fun _ => (bwdPass_extS env _ _ _ _ _ _ hh).2⟩
+          · rename_i hm
+            cases hh
+            exact ⟨Ext.refl _, fun hp => absurd (by simpa using hp) hm⟩) _ _ h1
+      exact hplace σ1 σ2 σ' t m hq i2 ht2 e2.1 hsd hk h3
+
+/-! ### one backward placement, stage by stage, with the values written -/
+
+theorem bwdPlace_cases (env : Env) (σ σ' : SS) (t : Uid) (m v : Time) (h : bwdPlace env σ t m v = .ok σ') :
+    ((env.info t).milestone = true ∧
+      σ' = markDone (setF { σ with res := (resLookup σ.res (env.info t).resource).1 } t
+        (fun _ => { start := some v, end_ := some v, est := some 0, spent := some 0 })) t) ∨
+    ((env.info t).milestone = false ∧ ∃ σ1 σ2 σ3,
+      bwdEnd env (resLookup σ.res (env.info t).resource).2 (usedBy env σ.rows (env.info t).resource t) t m v
+        { σ with res := (resLookup σ.res (env.info t).resource).1 } = .ok σ1 ∧
+      fillEst env t σ1 = .ok σ2 ∧
+      bwdStart env (resLookup σ.res (env.info t).resource).2 (usedBy env σ.rows (env.info t).resource t) t m σ2 = .ok σ3 ∧
+      σ' = markDone σ3 t) := by
+  unfold bwdPlace at h
+  rcases hr : resLookup σ.res (env.info t).resource with ⟨res', cal⟩
+  simp only [hr, bind, Except.bind, pure, Except.pure] at h ⊢
+  split at h
+  · rename_i hm
+    cases h
+    exact Or.inl ⟨hm, rfl⟩
+  · rename_i hm
+    split at h
+    · cases h
+    · rename_i σ1 h1
+      split at h
+      · cases h
+      · rename_i σ2 h2
+        split at h
+        · cases h
+        · rename_i σ3 h3
+          cases h
+          exact Or.inr ⟨by simpa using hm, σ1, σ2, σ3, h1, h2, h3, rfl⟩
+
+/-- `fillEst` leaves the dates alone -/
+theorem fillEst_dates (env : Env) (t : Uid) (σ σ' : SS) (h : fillEst env t σ = .ok σ') :
+    (σ'.f t).start = (σ.f t).start ∧ (σ'.f t).end_ = (σ.f t).end_ := by
+  unfold fillEst at h
+  simp only [bind, Except.bind] at h
+  split at h
+  · cases h
+  · rename_i σ1 h1
+    have s1 : (σ1.f t).start = (σ.f t).start ∧ (σ1.f t).end_ = (σ.f t).end_ := by
+      split at h1
+      · cases h1; exact ⟨rfl, rfl⟩
+      · split at h1
+        · cases h1; simp [setF, upd]
+        · split at h1
+          · cases h1
+          · cases h1; simp [setF, upd]
+    have s2 : (σ'.f t).start = (σ1.f t).start ∧ (σ'.f t).end_ = (σ1.f t).end_ := by
+      split at h
+      · cases h; exact ⟨rfl, rfl⟩
+      · split at h
+        · cases h; simp [setF, upd]
+        · split at h
+          · cases h
+          · cases h; simp [setF, upd]
+    exact ⟨s2.1.trans s1.1, s2.2.trans s1.2⟩
+
+/-- the end a leaf gets when none is fixed -/
+theorem bwdEnd_leaf (env : Env) (cal : Cal) (used : Int → Rat) (t : Uid) (m v : Time) (σ σ' : SS)
+    (hleaf : (env.info t).children.isEmpty = true) (he : (σ.f t).end_ = none)
+    (h : bwdEnd env cal used t m v σ = .ok σ') :
+    ∃ e0, nearestBwd cal used v = .ok e0 ∧ (σ'.f t).end_ = some (e0 + 1) ∧ (σ'.f t).start = (σ.f t).start := by
+  unfold bwdEnd at h
+  simp only at h
+  split at h
+  · rename_i x hx; rw [he] at hx; cases hx
+  · rw [if_pos hleaf] at h
+    simp only [bind, Except.bind] at h
+    split at h
+    · cases h
+    · rename_i e0 h0
+      cases h
+      exact ⟨e0, h0, by simp [setF, upd], by simp [setF, upd]⟩
+
+/-- the end a task with children gets -/
+theorem bwdEnd_sum (env : Env) (cal : Cal) (used : Int → Rat) (t : Uid) (m v : Time) (σ σ' : SS)
+    (hleaf : (env.info t).children.isEmpty = false) (he : (σ.f t).end_ = none)
+    (h : bwdEnd env cal used t m v σ = .ok σ') :
+    ((σ'.f t).end_ = some m ∨
+      ∃ c rest, (env.info t).children.filterMap (fun c => (σ.f c).end_) = c :: rest ∧
+        (σ'.f t).end_ = some (rest.foldl maxT c)) := by
+  unfold bwdEnd at h
+  simp only at h
+  split at h
+  · rename_i x hx; rw [he] at hx; cases hx
+  · rw [if_neg (by simp [hleaf])] at h
+    split at h
+    · cases h
+      exact Or.inl (by simp [setF, upd])
+    · rename_i c rest hc
+      cases h
+      exact Or.inr ⟨c, rest, hc, by simp [setF, upd]⟩
+
+theorem bwdStart_leaf (env : Env) (cal : Cal) (used : Int → Rat) (t : Uid) (m : Time) (σ σ' : SS)
+    (hleaf : (env.info t).children.isEmpty = true) (hs : (σ.f t).start = none)
+    (h : bwdStart env cal used t m σ = .ok σ') :
+    ∃ s rows, shiftBwd cal used (minT (((σ.f t).end_).getD epoch) m) (leftOf σ t) = .ok (s, rows) ∧
+      (σ'.f t).start = some s ∧ (σ'.f t).end_ = (σ.f t).end_ ∧
+      σ'.rows = σ.rows ++ rows.map (mkRow (env.info t).resource t) := by
+  unfold bwdStart at h
+  simp only at h
+  rw [if_pos hleaf] at h
+  simp only [bind, Except.bind] at h
+  split at h
+  · cases h
+  · rename_i v hv
+    obtain ⟨s, rows⟩ := v
+    cases h
+    refine ⟨s, rows, hv, ?_, ?_, ?_⟩
+    · simp [setF, upd, addRows, hs]
+    · simp [setF, upd, addRows]
+    · simp only [setF, addRows]; rfl
+
+theorem bwdStart_sum (env : Env) (cal : Cal) (used : Int → Rat) (t : Uid) (m : Time) (σ σ' : SS)
+    (hleaf : (env.info t).children.isEmpty = false)
+    (h : bwdStart env cal used t m σ = .ok σ') :
+    (∃ s, (σ'.f t).start = some s) ∧ (σ'.f t).end_ = (σ.f t).end_ ∧ σ'.rows = σ.rows := by
+  unfold bwdStart at h
+  simp only at h
+  rw [if_neg (by simp [hleaf])] at h
+  split at h
+  · cases h
+  · cases h
+    rename_i c rest _
+    exact ⟨⟨rest.foldl minT c, by simp [setF, upd]⟩, by simp [setF, upd], by simp [setF]⟩
+
+/-- `shiftBwd` with work to place: the exact start it computes -/
+theorem shiftBwd_exact (cal : Cal) (used : Int → Rat) (end_ : Time) (left : Rat) (s : Time)
+    (rows : List (Int × Rat)) (hl : 0 < left)
+    (h : shiftBwd cal used end_ left = .ok (s, rows)) :
+    ∃ dayL c, FillBwdSpec cal used (dayOf end_) left rows dayL ∧ rows ≠ [] ∧ capR cal (dayL : Rat) = .ok c ∧
+      s = (dayL : Rat) + 1 - (used dayL + daySum rows dayL) / c := by
+  unfold shiftBwd at h
+  have h0 : ¬ left = 0 := by grind
+  simp only [if_neg h0] at h
+  cases hf : fillBwd cal used Extracted.bwdShiftMaxSteps (Extracted.bwdShiftMaxSteps + 2) 0
+      (dayOf end_) left [] with
+  | error err => rw [hf] at h; cases h
+  | ok res =>
+    obtain ⟨rows', dayL⟩ := res
+    rw [hf] at h
+    simp only [bind, Except.bind] at h
+    cases hcap : capR cal (dayL : Rat) with
+    | error err => rw [hcap] at h; cases h
+    | ok c =>
+      rw [hcap] at h
+      simp only at h
+      split at h
+      · cases h
+      · cases h
+        obtain ⟨new, hrows, hspec, _⟩ := fillBwd_spec cal used _ _ _ _ _ _ _ _ (Rat.le_of_lt hl) hf
+        simp only [List.nil_append] at hrows
+        subst hrows
+        have hne : rows ≠ [] := by
+          intro hn
+          subst hn
+          have := hspec.total
+          simp at this
+          grind
+        exact ⟨dayL, c, hspec, hne, hcap, rfl⟩
+
+/-- the calendar and the ledger view a placement of `t` in state `σ` works with -/
+abbrev placeCal (env : Env) (σ : SS) (t : Uid) : Cal := (resLookup σ.res (env.info t).resource).2
+abbrev placeUsed (env : Env) (σ : SS) (t : Uid) : Int → Rat := usedBy env σ.rows (env.info t).resource t
+
+/-- what the placement of a leaf without fixed dates does: `d` = the day the end is measured from, `c` its
+    capacity, `s` the start, `rows` the reservations -/
+structure LeafPlaced (env : Env) (σ σ' : SS) (t : Uid) (m v : Time) (d : Int) (c : Rat) (s : Time)
+    (rows : List (Int × Rat)) : Prop where
+  dlt : d < dayOf v
+  cap : capR (placeCal env σ t) (d : Rat) = .ok c
+  avail : 0 < c - placeUsed env σ t d
+  fullAfter : ∀ d', d < d' → d' < dayOf v →
+    ∃ c', capR (placeCal env σ t) (d' : Rat) = .ok c' ∧ c' - placeUsed env σ t d' ≤ 0
+  end_ : (σ'.f t).end_ = some ((d : Rat) + 1 - placeUsed env σ t d / c)
+  start : (σ'.f t).start = some s
+  rowsEq : σ'.rows = σ.rows ++ rows.map (mkRow (env.info t).resource t)
+  resEq : σ'.res = (resLookup σ.res (env.info t).resource).1
+  fill : rows = [] ∨ ∃ dayL c' left,
+    FillBwdSpec (placeCal env σ t) (placeUsed env σ t)
+      (dayOf (minT ((d : Rat) + 1 - placeUsed env σ t d / c) m)) left rows dayL ∧ rows ≠ [] ∧
+    capR (placeCal env σ t) (dayL : Rat) = .ok c' ∧
+    s = (dayL : Rat) + 1 - (placeUsed env σ t dayL + daySum rows dayL) / c'
+
+theorem placeUsed_nonneg (env : Env) (σ : SS) (t : Uid) (hl : LedgerOK env σ) (d : Int) : 0 ≤ placeUsed env σ t d :=
+  reserved_nonneg _ hl.pos _ _ _
+
+theorem bwdPlace_leaf (env : Env) (σ σ' : SS) (t : Uid) (m v : Time) (hl : LedgerOK env σ)
+    (hleaf : (env.info t).children.isEmpty = true) (hm : (env.info t).milestone = false)
+    (hs : (σ.f t).start = none) (he : (σ.f t).end_ = none) (h : bwdPlace env σ t m v = .ok σ') :
+    ∃ d c s rows, LeafPlaced env σ σ' t m v d c s rows := by
+  rcases bwdPlace_cases env σ σ' t m v h with ⟨hm', _⟩ | ⟨_, σ1, σ2, σ3, h1, h2, h3, rfl⟩
+  · rw [hm] at hm'; cases hm'
+  · have hu := placeUsed_nonneg env σ t hl
+    obtain ⟨e0, hn, he1, hs1⟩ := bwdEnd_leaf env _ _ t m v { σ with res := (resLookup σ.res (env.info t).resource).1 } σ1 hleaf he h1
+    obtain ⟨d, c, hd, hc, hav, he0, hfull⟩ := nearestBwd_spec _ _ v e0 hu hn
+    obtain ⟨hs2, he2⟩ := fillEst_dates env t σ1 σ2 h2
+    have hs2' : (σ2.f t).start = none := by rw [hs2, hs1]; exact hs
+    obtain ⟨s, rows, hsh, hs3, he3, hr3⟩ := bwdStart_leaf env _ _ t m σ2 σ3 hleaf hs2' h3
+    have st1 := bwdEnd_stage env _ _ t m v _ σ1 h1
+    have st2 := fillEst_stage env t σ1 σ2 h2
+    obtain ⟨new, st3, _⟩ := bwdStart_stage env _ _ t m σ2 σ3 h3
+    have hend : (σ2.f t).end_ = some ((d : Rat) + 1 - placeUsed env σ t d / c) := by
+      rw [he2, he1, he0]
+      congr 1
+      show (d : Rat) - usedBy env σ.rows (env.info t).resource t d / c + 1 = _
+      grind
+    refine ⟨d, c, s, rows, hd, hc, hav, hfull, ?_, hs3, ?_, ?_, ?_⟩
+    · show (σ3.f t).end_ = _
+      rw [he3, hend]
+    · show σ3.rows = _
+      rw [hr3, st2.rows, st1.rows]
+      simp
+    · show σ3.res = _
+      rw [st3.res, st2.res, st1.res]
+    · rw [hend] at hsh
+      simp only [Option.getD_some] at hsh
+      have hl0 := leftOf_nonneg σ2 t
+      by_cases hz : leftOf σ2 t = 0
+      · exact Or.inl ((shiftBwd_spec _ _ _ _ _ _ hl0 hu hsh).1 hz).2
+      · obtain ⟨dayL, c', hsp, hne, hc', hs'⟩ := shiftBwd_exact _ _ _ _ _ _ (by grind) hsh
+        exact Or.inr ⟨dayL, c', _, hsp, hne, hc', hs'⟩
+
+/-- the placement of a milestone -/
+theorem bwdPlace_milestone (env : Env) (σ σ' : SS) (t : Uid) (m v : Time)
+    (hm : (env.info t).milestone = true) (h : bwdPlace env σ t m v = .ok σ') :
+    (σ'.f t).start = some v ∧ (σ'.f t).end_ = some v ∧ σ'.rows = σ.rows := by
+  rcases bwdPlace_cases env σ σ' t m v h with ⟨_, rfl⟩ | ⟨hm', _⟩
+  · simp [markDone, setF, upd]
+  · rw [hm] at hm'; cases hm'
+
+/-- the placement of a task with children that is not a milestone -/
+theorem bwdPlace_sum (env : Env) (σ σ' : SS) (t : Uid) (m v : Time)
+    (hleaf : (env.info t).children.isEmpty = false) (hm : (env.info t).milestone = false)
+    (he : (σ.f t).end_ = none) (h : bwdPlace env σ t m v = .ok σ') :
+    (∃ s, (σ'.f t).start = some s) ∧ σ'.rows = σ.rows ∧
+    ((σ'.f t).end_ = some m ∨
+      ∃ c rest, (env.info t).children.filterMap (fun c => (σ.f c).end_) = c :: rest ∧
+        (σ'.f t).end_ = some (rest.foldl maxT c)) := by
+  rcases bwdPlace_cases env σ σ' t m v h with ⟨hm', _⟩ | ⟨_, σ1, σ2, σ3, h1, h2, h3, rfl⟩
+  · rw [hm] at hm'; cases hm'
+  · have hend := bwdEnd_sum env _ _ t m v { σ with res := (resLookup σ.res (env.info t).resource).1 } σ1 hleaf he h1
+    obtain ⟨_, he2⟩ := fillEst_dates env t σ1 σ2 h2
+    obtain ⟨hs3, he3, hr3⟩ := bwdStart_sum env _ _ t m σ2 σ3 hleaf h3
+    have st1 := bwdEnd_stage env _ _ t m v _ σ1 h1
+    have st2 := fillEst_stage env t σ1 σ2 h2
+    refine ⟨hs3, ?_, ?_⟩
+    · show σ3.rows = _
+      rw [hr3, st2.rows, st1.rows]; simp
+    · show (σ3.f t).end_ = some m ∨ ∃ c rest, _ ∧ (σ3.f t).end_ = _
+      rw [he3, he2]
+      exact hend
+
+/-! ### the base invariant of a backward run without fixed dates (carries the deadline clause) -/
+
+structure Base (env : Env) (σ : SS) : Prop where
+  ledger : LedgerOK env σ
+  rowsDone : ∀ r ∈ σ.rows, r.task ∈ σ.done
+  fresh : ∀ t, (env.info t).member = true → t ∉ σ.done → (σ.f t).start = none ∧ (σ.f t).end_ = none
+  doneMem : ∀ t ∈ σ.done, (env.info t).member = true
+  hasRes : ∀ t ∈ σ.done, (σ.res.map (·.1)).contains (env.info t).resource = true
+  dates : ∀ t ∈ σ.done, ∃ s e, (σ.f t).start = some s ∧ (σ.f t).end_ = some e ∧ e ≤ env.bound
+
+theorem bwdPlace_res (env : Env) (σ σ' : SS) (t : Uid) (m v : Time) (h : bwdPlace env σ t m v = .ok σ') :
+    σ'.res = (resLookup σ.res (env.info t).resource).1 := by
+  obtain ⟨new, σm, hs, rfl, _⟩ := bwdPlace_stage env σ σ' t m v h
+  exact hs.res
+
+/-- the end computed for a leaf lies on or before `minSucc` -/
+theorem LeafPlaced.end_le {env : Env} {σ σ' : SS} {t : Uid} {m v : Time} {d : Int} {c : Rat} {s : Time}
+    {rows : List (Int × Rat)} (hp : LeafPlaced env σ σ' t m v d c s rows) (hl : LedgerOK env σ) :
+    (d : Rat) + 1 - placeUsed env σ t d / c ≤ v := by
+  have hu := placeUsed_nonneg env σ t hl d
+  have hfr := div_nonneg_lt_one (u := placeUsed env σ t d) (c := c) hu (by have := hp.avail; grind)
+  have h1 := int_succ_le_cast hp.dlt
+  have h2 := dayOf_le v
+  grind
+
+/-- dates a placement writes: both are set, the end respects the deadline, and for a leaf or milestone it does
+    not exceed `minSucc` -/
+theorem bwdPlace_dates (env : Env) (σ σ' : SS) (t : Uid) (m v : Time) (hb : Base env σ)
+    (hmem : (env.info t).member = true) (ht : t ∉ σ.done) (hk : ∀ c ∈ (env.info t).children, c ∈ σ.done)
+    (hmb : m ≤ env.bound) (hvm : v ≤ m) (h : bwdPlace env σ t m v = .ok σ') :
+    ∃ s e, (σ'.f t).start = some s ∧ (σ'.f t).end_ = some e ∧ e ≤ env.bound ∧
+      ((env.info t).children.isEmpty = true ∨ (env.info t).milestone = true → e ≤ v) := by
+  obtain ⟨hs0, he0⟩ := hb.fresh t hmem ht
+  cases hm : (env.info t).milestone with
+  | true =>
+    obtain ⟨h1, h2, _⟩ := bwdPlace_milestone env σ σ' t m v hm h
+    exact ⟨v, v, h1, h2, by grind, fun _ => Rat.le_refl⟩
+  | false =>
+    cases hleaf : (env.info t).children.isEmpty with
+    | true =>
+      obtain ⟨d, c, s, rows, hp⟩ := bwdPlace_leaf env σ σ' t m v hb.ledger hleaf hm hs0 he0 h
+      have := hp.end_le hb.ledger
+      exact ⟨s, _, hp.start, hp.end_, by grind, fun _ => this⟩
+    | false =>
+      obtain ⟨⟨s, hs⟩, _, hend⟩ := bwdPlace_sum env σ σ' t m v hleaf hm he0 h
+      rcases hend with hend | ⟨c, rest, hc, hend⟩
+      · exact ⟨s, m, hs, hend, hmb, fun hh => by simp at hh⟩
+      · refine ⟨s, _, hs, hend, ?_, fun hh => by simp at hh⟩
+        have hall : ∀ y ∈ c :: rest, y ≤ env.bound := by
+          intro y hy
+          rw [← hc] at hy
+          obtain ⟨ch, hch, hy⟩ := List.mem_filterMap.1 hy
+          obtain ⟨_, e, _, he, hle⟩ := hb.dates ch (hk ch hch)
+          rw [he] at hy
+          cases hy
+          exact hle
+        exact foldl_maxT_le rest c _ (hall c (by simp)) (fun y hy => hall y (List.mem_cons_of_mem _ hy))
+
+theorem Base.place {env : Env} {σ σ' : SS} {t : Uid} {m v : Time} (hb : Base env σ)
+    (hmem : (env.info t).member = true) (ht : t ∉ σ.done) (hk : ∀ c ∈ (env.info t).children, c ∈ σ.done)
+    (hmb : m ≤ env.bound) (hvm : v ≤ m) (h : bwdPlace env σ t m v = .ok σ') : Base env σ' := by
+  obtain ⟨hext, hd⟩ := bwdPlace_ext env σ σ' t m v ht h
+  obtain ⟨r, hr, hrd⟩ := hext.rows
+  obtain ⟨rr, hrr, _⟩ := hext.res
+  refine ⟨bwdPlace_ledger env σ σ' t m v hb.ledger h, ?_, ?_, ?_, ?_, ?_⟩
+  · intro x hx
+    rw [hr] at hx
+    rcases List.mem_append.1 hx with hx | hx
+    · exact hext.done_sub (hb.rowsDone x hx)
+    · exact (hrd x hx).1
+  · intro x hxm hx
+    rw [hext.untouched x hx]
+    exact hb.fresh x hxm (fun hc => hx (hext.done_sub hc))
+  · intro x hx
+    rw [hd] at hx
+    rcases List.mem_append.1 hx with hx | hx
+    · exact hb.doneMem x hx
+    · simp only [List.mem_singleton] at hx; subst hx; exact hmem
+  · intro x hx
+    rw [hd] at hx
+    rcases List.mem_append.1 hx with hx | hx
+    · rw [hrr]; exact contains_append_left _ _ _ (hb.hasRes x hx)
+    · simp only [List.mem_singleton] at hx
+      subst hx
+      rw [bwdPlace_res env σ σ' x m v h]
+      exact (resLookup_spec σ.res (env.info x).resource).2.2
+  · intro x hx
+    rw [hd] at hx
+    rcases List.mem_append.1 hx with hx | hx
+    · rw [hext.frozen x hx]; exact hb.dates x hx
+    · simp only [List.mem_singleton] at hx
+      subst hx
+      obtain ⟨s, e, h1, h2, h3, _⟩ := bwdPlace_dates env σ σ' x m v hb hmem ht hk hmb hvm h
+      exact ⟨s, e, h1, h2, h3⟩
+
+/-! ### from `backwardCalc` to the final pass state -/
+
+/-- the observable part of a pass state -/
+def outOf (σ : SS) : Output := { f := σ.f, rows := σ.rows, res := σ.res }
+
+theorem Base.init (env : Env) (f0 : Uid → Fields) (res0 : List (Option Nat × Cal)) (mem : List Uid)
+    (hf : env.flagsOK) (hn : noFixedDates env f0 = true) (hm : members env = some mem) :
+    Base env { f := prepare env f0 mem, rows := [], done := [], res := res0, reads := 0 } := by
+  refine ⟨LedgerOK.init env _ rfl, by simp, ?_, by simp, by simp, by simp⟩
+  intro t htm _
+  have htl : t ∈ memberList env := (hf t).1 htm
+  have htmem : t ∈ mem := by rw [← memberList_eq env mem hm]; exact htl
+  show ((prepare env f0 mem t).start = none ∧ (prepare env f0 mem t).end_ = none)
+  unfold prepare
+  cases hleaf : (env.info t).children.isEmpty with
+  | true =>
+    simp only [Bool.not_true, Bool.and_false, Bool.false_eq_true, if_false]
+    have := List.all_eq_true.1 hn t htl
+    simp only [isLeaf, hleaf, Bool.not_true, Bool.false_or, Bool.and_eq_true, Option.isNone_iff_eq_none] at this
+    exact this
+  | false =>
+    simp [htmem]
+
+/-- run-level induction: an invariant `X` kept by every placement (on top of `Base`, with the dates handed down
+    related by `R`) holds of the final state, in which every member is done -/
+theorem backwardCalc_final (env : Env) (f0 : Uid → Fields) (res0 : List (Option Nat × Cal)) (o : Output)
+    (hf : env.flagsOK) (hn : noFixedDates env f0 = true) (h : backwardCalc env f0 res0 = .ok o)
+    (X : SS → Prop) (R : Uid → Time → Prop)
+    (hX0 : ∀ σ : SS, σ.done = [] → X σ)
+    (hR : ∀ t m, R t m → (env.info t).member = true ∧ m ≤ env.bound)
+    (hroot : ∀ r ∈ env.roots, R r env.bound)
+    (hkids : ∀ σ1 t c m, R t m → c ∈ (env.info t).children → R c (minStarts σ1 (env.info t).succs m))
+    (hlinks : ∀ t p m, R t m → p ∈ (env.info t).succs → (env.info p).member = (env.info t).member → R p m)
+    (hplace : ∀ σ1 σ σ' t m, R t m → Base env σ → X σ → t ∉ σ.done → Ext σ1 σ →
+      (∀ s ∈ (env.info t).succs, (env.info s).member = (env.info t).member → s ∈ σ1.done) →
+      (∀ c ∈ (env.info t).children, c ∈ σ.done) →
+      bwdPlace env σ t m (minStarts σ1 (env.info t).succs m) = .ok σ' → Base env σ' → X σ') :
+    ∃ σ, Base env σ ∧ X σ ∧ o = outOf σ ∧ ∀ t ∈ memberList env, t ∈ σ.done := by
+  obtain ⟨mem, σ, hm, hp, ho⟩ := bwdRun_ok env f0 res0 o (backwardCalc_run env f0 res0 o h)
+  have hI : DoneClosed env σ ∧ Base env σ ∧ X σ := by
+    refine passList_inv (fun s => DoneClosed env s ∧ Base env s ∧ X s) _ _ ?_ _ _
+      ⟨?_, Base.init env f0 res0 mem hf hn hm, hX0 _ rfl⟩ hp
+    · intro a x b hx ha hh
+      refine ⟨bwdPass_doneClosed env _ _ _ _ _ _ ha.1 hh, ?_⟩
+      refine bwdPass_inv2 env (fun s => Base env s ∧ X s) R ?_ hkids hlinks _ _ _ _ _ _
+        (hroot x (List.mem_reverse.1 hx)) ha.2 hh
+      intro σ1 s s' t m hr hi ht he hsd hk hpl
+      obtain ⟨hmem, hmb⟩ := hR t m hr
+      have hb' : Base env s' := hi.1.place hmem ht hk hmb (minStarts_le _ _ _) hpl
+      exact ⟨hb', hplace σ1 s s' t m hr hi.1 hi.2 ht he hsd hk hpl hb'⟩
+    · intro x hx; cases hx
+  have hroots : ∀ r ∈ env.roots, r ∈ σ.done := fun r hr =>
+    passList_all_done _ _ (fun a x b _ hh => bwdPass_ext env _ _ _ _ _ _ hh) _ _ hp r (List.mem_reverse.2 hr)
+  refine ⟨σ, hI.2.1, hI.2.2, ho, ?_⟩
+  intro t ht
+  rw [memberList_eq env mem hm] at ht
+  obtain ⟨rt, hrt, l, hl, htl⟩ := (members_spec env mem hm).2 t ht
+  exact hI.1.subtree (hroots rt hrt) _ l hl t htl
+
+/-- the relation used for the clauses that hold for every WBS: members, called with a date not after the bound -/
+def RDeadline (env : Env) (t : Uid) (m : Time) : Prop := (env.info t).member = true ∧ m ≤ env.bound
+
+theorem member_child (env : Env) (hf : env.flagsOK) (t c : Uid) (ht : (env.info t).member = true)
+    (hc : c ∈ (env.info t).children) : (env.info c).member = true := by
+  have htl := (hf t).1 ht
+  cases hm : members env with
+  | none => simp [memberList, hm] at htl
+  | some mem =>
+    rw [memberList_eq env mem hm] at htl
+    exact (hf c).2 (by rw [memberList_eq env mem hm]; exact members_children env mem hm t htl c hc)
+
+theorem member_root (env : Env) (hf : env.flagsOK) (f0 : Uid → Fields) (res0 : List (Option Nat × Cal)) (o : Output)
+    (h : backwardCalc env f0 res0 = .ok o) : ∀ r ∈ env.roots, (env.info r).member = true := by
+  obtain ⟨mem, σ, hm, _, _⟩ := bwdRun_ok env f0 res0 o (backwardCalc_run env f0 res0 o h)
+  intro r hr
+  exact (hf r).2 (by rw [memberList_eq env mem hm]; exact members_root env mem hm r hr)
+
+theorem backwardCalc_c09Deadline (env : Env) (f0 : Uid → Fields) (res0 : List (Option Nat × Cal)) (o : Output)
+    (hf : env.flagsOK) (hn : noFixedDates env f0 = true) (h : backwardCalc env f0 res0 = .ok o) :
+    c09Deadline env o = true := by
+  obtain ⟨σ, hb, _, rfl, hall⟩ := backwardCalc_final env f0 res0 o hf hn h (fun _ => True) (RDeadline env)
+    (fun _ _ => trivial) (fun _ _ hr => hr)
+    (fun r hr => ⟨member_root env hf f0 res0 o h r hr, Rat.le_refl⟩)
+    (fun σ1 t c m hr hc => ⟨member_child env hf t c hr.1 hc, Rat.le_trans (minStarts_le _ _ _) hr.2⟩)
+    (fun t p m hr _ he => ⟨he.trans hr.1, hr.2⟩)
+    (fun _ _ _ _ _ _ _ _ _ _ _ _ _ _ => trivial)
+  unfold c09Deadline
+  rw [List.all_eq_true]
+  intro t ht
+  obtain ⟨s, e, _, he, hle⟩ := hb.dates t (hall t ht)
+  show (match (σ.f t).end_ with | some e => decide (e ≤ env.bound) | none => false) = true
+  rw [he]
+  simpa using hle
+
+/-! ### ledger bookkeeping: a task's rows, first/last day, what was booked before it -/
+
+theorem rowsOf_append (a b : List Row) (t : Uid) : rowsOf (a ++ b) t = rowsOf a t ++ rowsOf b t := by
+  simp [rowsOf, List.filter_append]
+
+theorem rowsOf_none (b : List Row) (t : Uid) (h : ∀ x ∈ b, x.task ≠ t) : rowsOf b t = [] := by
+  unfold rowsOf
+  exact List.filter_eq_nil_iff.2 (fun x hx => by simpa using h x hx)
+
+theorem rowsOf_mk (k : Option Nat) (t : Uid) (new : List (Int × Rat)) :
+    rowsOf (new.map (mkRow k t)) t = new.map (mkRow k t) := by
+  unfold rowsOf
+  exact List.filter_eq_self.2 (fun x hx => by
+    obtain ⟨p, _, rfl⟩ := List.mem_map.1 hx
+    simp [mkRow])
+
+theorem reserved_other (b : List Row) (k : Option Nat) (d : Int) (t : Uid) (h : ∀ x ∈ b, x.task ≠ t) :
+    reserved b k d (some t) = 0 := by
+  unfold reserved
+  rw [List.filter_eq_nil_iff.2 (fun x hx => by simp [h x hx])]
+  simp
+
+theorem firstRowIdx_append_some (a b : List Row) (t : Uid) (i : Nat) (h : firstRowIdx a t = some i) :
+    firstRowIdx (a ++ b) t = some i ∧ i ≤ a.length := by
+  unfold firstRowIdx at h ⊢
+  refine ⟨by rw [List.findIdx?_append, h]; rfl, ?_⟩
+  have := (List.findIdx?_eq_some_iff_findIdx_eq.1 h).1
+  omega
+
+theorem firstRowIdx_of_rows (a : List Row) (t : Uid) (h : rowsOf a t ≠ []) : ∃ i, firstRowIdx a t = some i := by
+  cases hi : firstRowIdx a t with
+  | some i => exact ⟨i, rfl⟩
+  | none =>
+    exfalso
+    apply h
+    unfold firstRowIdx at hi
+    rw [List.findIdx?_eq_none_iff] at hi
+    exact rowsOf_none a t (fun x hx => by simpa using hi x hx)
+
+theorem firstRowIdx_new (a : List Row) (k : Option Nat) (t : Uid) (new : List (Int × Rat))
+    (ha : ∀ x ∈ a, x.task ≠ t) (hne : new ≠ []) :
+    firstRowIdx (a ++ new.map (mkRow k t)) t = some a.length := by
+  unfold firstRowIdx
+  rw [List.findIdx?_append]
+  have h1 : a.findIdx? (fun r => r.task == t) = none :=
+    List.findIdx?_eq_none_iff.2 (fun x hx => by simpa using ha x hx)
+  rw [h1]
+  cases new with
+  | nil => exact absurd rfl hne
+  | cons p l => simp [List.findIdx?_cons, mkRow]
+
+/-- `bookedBefore` depends on the ledger only -/
+def bookedBeforeR (env : Env) (rows : List Row) (k : Option Nat) (d : Int) (t : Uid) : Rat :=
+  if env.balance then
+    match firstRowIdx rows t with
+    | some i => reserved (rows.take i) k d none
+    | none => reserved rows k d none
+  else 0
+
+theorem bookedBefore_eq (env : Env) (o : Output) (k : Option Nat) (d : Int) (t : Uid) :
+    bookedBefore env o k d t = bookedBeforeR env o.rows k d t := rfl
+
+theorem bookedBeforeR_append (env : Env) (a b : List Row) (k : Option Nat) (d : Int) (t : Uid)
+    (h : rowsOf a t ≠ []) : bookedBeforeR env (a ++ b) k d t = bookedBeforeR env a k d t := by
+  obtain ⟨i, hi⟩ := firstRowIdx_of_rows a t h
+  obtain ⟨h1, h2⟩ := firstRowIdx_append_some a b t i hi
+  unfold bookedBeforeR
+  rw [h1, hi]
+  simp only [List.take_append_of_le_length h2]
+
+/-- at its placement a task sees, as `used`, exactly what `bookedBefore` reports afterwards -/
+theorem bookedBeforeR_new (env : Env) (a : List Row) (t : Uid) (new : List (Int × Rat)) (d : Int)
+    (ha : ∀ x ∈ a, x.task ≠ t) (hne : new ≠ []) :
+    bookedBeforeR env (a ++ new.map (mkRow (env.info t).resource t)) (env.info t).resource d t =
+      usedBy env a (env.info t).resource t d := by
+  unfold bookedBeforeR usedBy
+  rw [firstRowIdx_new a _ t new ha hne]
+  by_cases hb : env.balance = true
+  · simp only [hb, if_true, List.take_left' rfl]
+  · simp only [hb, Bool.false_eq_true, if_false]
+    exact (reserved_other a _ d t ha).symm
+
+theorem firstDay_go : ∀ (l : List Int) (x : Int),
+    ∃ d, l.foldl (fun m d => match m with | none => some d | some x => some (min x d)) (some x) = some d ∧
+      (d = x ∨ d ∈ l) ∧ d ≤ x ∧ ∀ y ∈ l, d ≤ y
+  | [], x => ⟨x, rfl, Or.inl rfl, Int.le_refl _, by simp⟩
+  | y :: l, x => by
+    obtain ⟨d, h1, h2, h3, h4⟩ := firstDay_go l (min x y)
+    refine ⟨d, by simpa using h1, ?_, by omega, ?_⟩
+    · rcases h2 with h2 | h2
+      · by_cases hxy : x ≤ y
+        · exact Or.inl (by omega)
+        · exact Or.inr (by simp; omega)
+      · exact Or.inr (List.mem_cons_of_mem _ h2)
+    · intro z hz
+      rcases List.mem_cons.1 hz with rfl | hz
+      · omega
+      · exact h4 z hz
+
+theorem lastDay_go : ∀ (l : List Int) (x : Int),
+    ∃ d, l.foldl (fun m d => match m with | none => some d | some x => some (max x d)) (some x) = some d ∧
+      (d = x ∨ d ∈ l) ∧ x ≤ d ∧ ∀ y ∈ l, y ≤ d
+  | [], x => ⟨x, rfl, Or.inl rfl, Int.le_refl _, by simp⟩
+  | y :: l, x => by
+    obtain ⟨d, h1, h2, h3, h4⟩ := lastDay_go l (max x y)
+    refine ⟨d, by simpa using h1, ?_, by omega, ?_⟩
+    · rcases h2 with h2 | h2
+      · by_cases hxy : y ≤ x
+        · exact Or.inl (by omega)
+        · exact Or.inr (by simp; omega)
+      · exact Or.inr (List.mem_cons_of_mem _ h2)
+    · intro z hz
+      rcases List.mem_cons.1 hz with rfl | hz
+      · omega
+      · exact h4 z hz
+
+theorem firstDay_spec (rows : List Row) (d : Int) (h : firstDay rows = some d) :
+    (∃ r ∈ rows, r.day = d) ∧ ∀ r ∈ rows, d ≤ r.day := by
+  cases rows with
+  | nil => simp [firstDay] at h
+  | cons r l =>
+    unfold firstDay at h
+    simp only [List.map_cons, List.foldl_cons] at h
+    obtain ⟨d', h1, h2, h3, h4⟩ := firstDay_go (l.map (·.day)) r.day
+    have hdd : some d' = some d := h1.symm.trans h
+    cases hdd
+    constructor
+    · rcases h2 with h2 | h2
+      · exact ⟨r, by simp, h2.symm⟩
+      · obtain ⟨x, hx, rfl⟩ := List.mem_map.1 h2
+        exact ⟨x, List.mem_cons_of_mem _ hx, rfl⟩
+    · intro x hx
+      rcases List.mem_cons.1 hx with rfl | hx
+      · exact h3
+      · exact h4 _ (List.mem_map_of_mem hx)
+
+theorem lastDay_spec (rows : List Row) (d : Int) (h : lastDay rows = some d) :
+    (∃ r ∈ rows, r.day = d) ∧ ∀ r ∈ rows, r.day ≤ d := by
+  cases rows with
+  | nil => simp [lastDay] at h
+  | cons r l =>
+    unfold lastDay at h
+    simp only [List.map_cons, List.foldl_cons] at h
+    obtain ⟨d', h1, h2, h3, h4⟩ := lastDay_go (l.map (·.day)) r.day
+    have hdd : some d' = some d := h1.symm.trans h
+    cases hdd
+    constructor
+    · rcases h2 with h2 | h2
+      · exact ⟨r, by simp, h2.symm⟩
+      · obtain ⟨x, hx, rfl⟩ := List.mem_map.1 h2
+        exact ⟨x, List.mem_cons_of_mem _ hx, rfl⟩
+    · intro x hx
+      rcases List.mem_cons.1 hx with rfl | hx
+      · exact h3
+      · exact h4 _ (List.mem_map_of_mem hx)
+
+theorem firstDay_some (rows : List Row) (h : rows ≠ []) : ∃ d, firstDay rows = some d := by
+  cases rows with
+  | nil => exact absurd rfl h
+  | cons r l =>
+    obtain ⟨d', h1, _⟩ := firstDay_go (l.map (·.day)) r.day
+    exact ⟨d', h1⟩
+
+/-- the first (earliest) day of a backward fill is the last day the loop visited -/
+theorem firstDay_fill {cal : Cal} {used : Int → Rat} {day0 : Int} {left : Rat} {new : List (Int × Rat)}
+    {dayL : Int} (hs : FillBwdSpec cal used day0 left new dayL) (hne : new ≠ []) (k : Option Nat) (t : Uid) :
+    firstDay (new.map (mkRow k t)) = some dayL := by
+  obtain ⟨d, hd⟩ := firstDay_some (new.map (mkRow k t)) (by simpa using hne)
+  obtain ⟨⟨r, hr, hrd⟩, hmin⟩ := firstDay_spec _ d hd
+  obtain ⟨u, hlast⟩ := hs.last hne
+  have hmemL : (dayL, u) ∈ new := List.mem_of_getLast? hlast
+  obtain ⟨p, hp, rfl⟩ := List.mem_map.1 hr
+  have h1 := (hs.range p hp).2
+  have h2 := hmin _ (List.mem_map_of_mem (f := mkRow k t) hmemL)
+  simp only [mkRow] at hrd h2
+  rw [hd]
+  congr 1
+  omega
+
 end Pj
